@@ -55,6 +55,11 @@ var c08filters = []struct{ Expr, Kind string }{
 	{"select(.spec.a > 1) | .spec", "object-or-none"},
 	{".spec.items[0]", "scalar"},
 	{"{n: (.spec.items | length)}", "object"},
+	// several outputs with a null before the one that changes; "no output" versus a null output
+	{".spec.missing, .spec.b", "multi"},
+	{".spec.missing, .spec.a, .spec.name", "multi"},
+	{".spec.a | select(. != 0)", "null-or-none-or-scalar"},
+	{".spec.b, null, .metadata.labels.l", "multi"},
 }
 
 func c08project(expr string, obj map[string]any) (string, error) {
